@@ -87,6 +87,9 @@ func runTrivial(t *testing.T, st *RunStats) {
 			if tp.Kind() == reflect.Struct || tp.Kind() == reflect.Array {
 				nested++
 				st.AddNonTrivial([]byte("type " + tp.String()))
+				if nested%50 == 1 && len(st.Samples) < 5 {
+					st.Samples = append(st.Samples, map[string]any{"kind": "generated type", "type": tp.String(), "classified_pointer_free": ecs.VerifIsTrivial(tp), "runtime_ptr_bytes": ptrBytes(tp)})
+				}
 			}
 		}
 	})
